@@ -20,7 +20,7 @@ Next == /\ Len(hist) < Depth
         /\ \E op \in Alphabet : st' = Step(st, op) /\ hist' = Append(hist, op)
 Spec == Init /\ [][Next]_vars
 \* what can be told apart from outside: what every holder shows, who shares with whom, the ghost
-ViewSt == <<[h \in Holders |-> <<IsNil(st, h), Show(st, h), Sharers(st, h)>>], st.ints>>
+ViewSt == <<[h \in Holders |-> <<IsNil(st, h), Show(st, h), Sharers(st, h)>>], st.ints, Len(hist)>>
 
 InvHeap == /\ \A h \in Holders : st.ptr[h] \in 0..(st.nxt - 1)
            /\ Len(st.heap) = st.nxt - 1
